@@ -20,7 +20,21 @@ use serde::{Deserialize, Serialize};
 use serde_json::{json, Map, Value};
 use std::collections::{BTreeMap, BTreeSet};
 use std::path::Path;
+use std::sync::OnceLock;
 use std::time::Duration;
+
+/// the independent schema judge (harness/src/c16_schema.rs): a JSON-Schema interpreter over the schema documents,
+/// sharing no code with rip_openresponses' validators
+#[path = "../c16_schema.rs"]
+mod schema;
+static SCHEMAS: OnceLock<schema::Schemas> = OnceLock::new();
+fn schemas() -> &'static schema::Schemas {
+    SCHEMAS.get_or_init(|| schema::Schemas::load().expect("schema documents"))
+}
+/// violations of the CreateResponseBody schema by a whole request body (nothing carved out)
+fn schema_errors(body: &Value) -> Vec<String> {
+    schemas().validate("CreateResponseBody.json", body)
+}
 
 // ------------------------------------------------------------------ Coq printers
 fn coq_json(v: &Value) -> String {
@@ -171,7 +185,10 @@ fn clean_item_events(r: &mut Rng, oi: u64, id: Option<&str>, call_id: &str, name
 }
 
 fn noise_event(r: &mut Rng) -> Value {
-    match r.below(8) {
+    match r.below(11) {
+        8 => json!({"type":"response.output_item.done","output_index":2,"item":{"type":"frobnicate_call","id":"x_1","call_id":"call_x","name":"bash","arguments":"{}"}}),
+        9 => json!({"type":"response.output_item.done","output_index":2,"item":{"type":"custom_tool_call","id":"ct_1","call_id":"call_ct","name":"bash","input":"echo"}}),
+        10 => json!({"type":"response.output_item.added","output_index":2,"item":{"type":7,"call_id":"call_n","name":"bash"}}),
         0 => json!({"type":"response.output_text.delta","delta":"hi","output_index":0,"content_index":0,"item_id":"msg_1"}),
         1 => json!({"type":"response.output_item.added","output_index":7,"item":{"type":"message","id":"msg_1","role":"assistant","content":[]}}),
         2 => json!({"type":"response.output_item.done","output_index":7,"item":{"type":"message","id":"msg_1","role":"assistant","content":[]}}),
@@ -214,7 +231,7 @@ fn weird_value(r: &mut Rng) -> Value {
 /// Dirty provider events around function calls: ids missing / empty / shared, wrong types, any order.
 fn dirty_events(r: &mut Rng, tag: &str, mk: &mut dyn FnMut(&mut Rng, usize) -> (String, String)) -> Vec<Value> {
     let ids = [format!("fc_{tag}_a"), format!("fc_{tag}_b"), format!("fc_{tag}_c")];
-    let cids = [format!("call_{tag}_a"), format!("call_{tag}_b"), format!("call_{tag}_c")];
+    let cids = [format!("call_{tag}_a"), format!("call_{tag}_b"), format!("call_{tag}_c"), format!("call_{tag}_{}", "L".repeat(70))];
     let n = r.range(1, 12) as usize;
     let mut evs = vec![];
     for j in 0..n {
@@ -414,6 +431,28 @@ fn gen_collect(r: &mut Rng, i: usize) -> CollectCase {
 /// A clean round: every call has a unique call id, events of one item stay in order; returns the events and
 /// the calls in the order the loop must answer them (output_index, ties by completion order).
 fn clean_round(r: &mut Rng, tag: &str, mk: &mut dyn FnMut(&mut Rng, usize) -> (String, String), max_items: u64) -> (Vec<Value>, Vec<ExpCall>) {
+    clean_round_p(r, tag, mk, max_items, 0)
+}
+
+/// A call id the provider may well send and that is structurally fine (a non-empty string) but sits on or beyond
+/// the limits the schema puts on `call_id` in function_call / function_call_output items (1..=64 characters):
+/// the follow-up that answers such a call violates the schema exactly when `schema_ok` is false.
+fn edge_call_id(r: &mut Rng, tag: &str, j: usize) -> (String, bool) {
+    let base = format!("call_{tag}_{j}_");
+    let pad = |n: usize, c: char| -> String { base.chars().chain(std::iter::repeat(c)).take(n).collect() };
+    match r.below(7) {
+        0 => (pad(65, 'x'), false),
+        1 => (pad(70, 'x'), false),
+        2 => (pad(300, 'y'), false),
+        3 => (pad(65, 'é'), false), // 65 characters
+        4 => (pad(64, 'x'), true),   // the boundary itself
+        5 => (pad(64, 'é'), true),   // 64 characters in more than 64 bytes
+        _ => (pad(63, 'z'), true),
+    }
+}
+
+/// `poison_den` > 0: each call gets an `edge_call_id` with chance 1/poison_den
+fn clean_round_p(r: &mut Rng, tag: &str, mk: &mut dyn FnMut(&mut Rng, usize) -> (String, String), max_items: u64, poison_den: u64) -> (Vec<Value>, Vec<ExpCall>) {
     let n = r.below(max_items + 1) as usize;
     // output indexes: a permutation, with gaps, sometimes equal (ties)
     let mut ois: Vec<u64> = (0..n as u64).map(|k| k * r.range(1, 2)).collect();
@@ -429,7 +468,7 @@ fn clean_round(r: &mut Rng, tag: &str, mk: &mut dyn FnMut(&mut Rng, usize) -> (S
     for j in 0..n {
         let (name, args) = mk(r, j);
         let id = format!("fc_{tag}_{j}");
-        let cid = format!("call_{tag}_{j}");
+        let cid = if poison_den > 0 && r.chance(1, poison_den) { edge_call_id(r, tag, j).0 } else { format!("call_{tag}_{j}") };
         let with_id = r.chance(3, 4);
         seqs.push(clean_item_events(r, ois[j], if with_id { Some(&id) } else { None }, &cid, &name, &args));
         calls.push(ExpCall { oi: ois[j], call_id: cid, name, args });
@@ -632,15 +671,30 @@ fn gen_loop(r: &mut Rng, i: usize) -> LoopCase {
     let followup = if r.chance(1, 3) { Some(r.pick(&["continue", "go on ✓", ""]).to_string()) } else { None };
     let dirty_case = i % 4 == 3;
     let big = i % 17 == 5; // drive the run into the tool-call bound
-    let nrounds = if big { r.range(3, 7) } else { r.range(0, 4) } as usize;
+    // provider data that is structurally fine but breaks a schema constraint of the follow-up (both history modes)
+    let poison = i % 4 == 2 && !big;
+    let nrounds = if big { r.range(3, 7) } else if poison { r.range(1, 4) } else { r.range(0, 4) } as usize;
     let mut rounds = vec![];
     let mut tokn = 0usize;
     for k in 0..nrounds {
         let tag = format!("{k}");
         let mut mk = |r: &mut Rng, _j: usize| -> (String, String) {
             tokn += 1;
-            // an empty tool name makes the stateless follow-up payload schema-invalid (function_call item)
-            let name = if r.chance(1, 15) { String::new() } else { r.pick(&EXEC_NAMES).to_string() };
+            // provider-chosen function names on and beyond the schema's limits for a function_call item (1..=64
+            // characters of [a-zA-Z0-9_-]): they make the STATELESS follow-up (which echoes the call) schema-invalid
+            let name = if r.chance(1, if poison { 5 } else { 15 }) {
+                match r.below(if poison { 7 } else { 1 }) {
+                    0 => String::new(),
+                    1 => "functions.read".to_string(),
+                    2 => "my tool".to_string(),
+                    3 => "lés".to_string(),
+                    4 => "n".repeat(65),
+                    5 => "N".repeat(64), // valid
+                    _ => "read_file-2".to_string(), // valid, not a tool
+                }
+            } else {
+                r.pick(&EXEC_NAMES).to_string()
+            };
             let args = marker_args(r, &name, &format!("t{tokn}"));
             (name, args)
         };
@@ -653,7 +707,7 @@ fn gen_loop(r: &mut Rng, i: usize) -> LoopCase {
             }
             (ev, None)
         } else {
-            let (ev, exp) = clean_round(r, &tag, &mut mk, if big { 14 } else { 4 });
+            let (ev, exp) = clean_round_p(r, &tag, &mut mk, if big { 14 } else { 4 }, if poison { 4 } else { 0 });
             (ev, Some(exp))
         };
         rounds.push(RoundSpec { mode, events, done: r.chance(3, 4), expected, render: r.next() });
@@ -905,6 +959,10 @@ struct LoopEnc {
     done: Vec<Vec<(bool, String, String, String)>>,
     /// why the validator refused the last payload (when it did)
     refused_why: Vec<String>,
+    /// the implementation's own validator on the same bodies (sent ones, then the refused one)
+    real_valids: Vec<bool>,
+    /// the refused payload, when there is one
+    rejected: Option<Value>,
 }
 
 fn encode_loop(o: &LoopObs) -> Result<LoopEnc, String> {
@@ -980,12 +1038,16 @@ fn encode_loop(o: &LoopObs) -> Result<LoopEnc, String> {
             enc_body(&mut obs, b)?;
         }
     }
-    let mut valids: Vec<bool> = o.bodies.iter().map(|b| rip_openresponses::validate_create_response_body(b).is_ok()).collect();
+    // payload validity handed to the model = the schema itself (independent interpreter), not the implementation's
+    // validator: "every sent request passed `valid`" then means "satisfies the schema"
+    let mut valids: Vec<bool> = o.bodies.iter().map(|b| schema_errors(b).is_empty()).collect();
+    let mut real_valids: Vec<bool> = o.bodies.iter().map(|b| rip_openresponses::validate_create_response_body(b).is_ok()).collect();
     if let Some(b) = &rejected {
-        valids.push(rip_openresponses::validate_create_response_body(b).is_ok());
+        valids.push(schema_errors(b).is_empty());
+        real_valids.push(rip_openresponses::validate_create_response_body(b).is_ok());
     }
-    let refused_why = rejected.as_ref().and_then(|b| rip_openresponses::validate_create_response_body(b).err()).unwrap_or_default();
-    Ok(LoopEnc { obs, outs, valids, reason, done: done_all, refused_why })
+    let refused_why = rejected.as_ref().map(|b| schema_errors(b)).unwrap_or_default();
+    Ok(LoopEnc { obs, outs, valids, reason, done: done_all, refused_why, real_valids, rejected })
 }
 
 fn coq_loop_case(c: &LoopCase, e: &LoopEnc) -> String {
@@ -1012,8 +1074,13 @@ fn loop_oracle(c: &LoopCase, o: &LoopObs, e: &LoopEnc) -> Vec<(String, String)> 
     let outputs_of = |items: &[Value]| -> Vec<Value> { items.iter().filter(|i| i["type"] == "function_call_output").cloned().collect() };
     // O4: a schema-invalid request is never sent
     for (k, b) in o.bodies.iter().enumerate() {
-        if let Err(errs) = rip_openresponses::validate_create_response_body(b) {
-            bad.push((format!("request {k} was sent although it fails schema validation: {}", errs.first().cloned().unwrap_or_default()), "invalid_request_sent".to_string()));
+        // judged by the schema documents through the harness's own interpreter, on the whole body
+        let errs = schema_errors(b);
+        if !errs.is_empty() {
+            let own = if e.real_valids.get(k).copied().unwrap_or(false) { "the implementation's validator accepted it" } else { "the implementation's validator reported errors too" };
+            bad.push((format!("request {k} was sent although it violates the CreateResponseBody schema ({own}): {}", errs.iter().take(3).cloned().collect::<Vec<_>>().join(" | ")), "invalid_request_sent".to_string()));
+        } else if let Err(errs) = rip_openresponses::validate_create_response_body(b) {
+            bad.push((format!("request {k} was sent although the implementation's own validator reports errors: {}", errs.first().cloned().unwrap_or_default()), "invalid_request_sent".to_string()));
         }
         if b["tool_choice"] != c.tool_choice {
             bad.push((format!("request {k} carries tool_choice {} instead of the configured one", b["tool_choice"]), "tool_choice_not_forwarded".to_string()));
@@ -1129,6 +1196,15 @@ fn loop_oracle(c: &LoopCase, o: &LoopObs, e: &LoopEnc) -> Vec<(String, String)> 
     bad
 }
 
+/// a schema error without the instance: `/input/3/call_id: string of 70 characters, maxLength is 64` ->
+/// `/input/#/call_id: maxLength`
+fn refusal_kind(w: &str) -> String {
+    let (path, msg) = w.split_once(": ").unwrap_or(("", w));
+    let path: String = path.split('/').map(|p| if !p.is_empty() && p.chars().all(|c| c.is_ascii_digit()) { "#" } else { p }).collect::<Vec<_>>().join("/");
+    let kw = ["maxLength", "minLength", "does not match", "is not one of", "is not of type", "required property", "anyOf", "oneOf", "maxItems", "minItems", "minimum", "maximum"].iter().find(|k| msg.contains(**k)).copied().unwrap_or("other");
+    format!("{path}: {kw}")
+}
+
 fn marker_of(args: &str) -> Option<String> {
     let p = args.find("m/t")?;
     let rest = &args[p + 2..];
@@ -1234,6 +1310,23 @@ fn corpus_loops() -> Vec<LoopCase> {
         rounds: vec![RoundSpec { mode: 0, events: vec![json!({"type":"response.created","response":{"id":"resp_1"}}), call(0, "fc_1", "call_1", "write", &w("t1"))], done: true, expected: Some(vec![ExpCall { oi: 0, call_id: "call_1".into(), name: "write".into(), args: w("t1") }]), render: 1 }, end.clone()],
     });
     v.push(LoopCase { stateless: false, tool_choice: json!({"type":"function"}), choice_spec: None, followup: None, prompt: "malformed".into(), rounds: vec![end.clone()], thread: false });
+    // seeded change C16-3 (the body validator stops applying the schema to `input` items): provider data that is
+    // structurally fine but violates a value constraint of the follow-up items — a 70-character call id (both
+    // history modes), a function name with a dot (the stateless follow-up echoes the call); the follow-up must
+    // not be sent.  And the boundary: a 64-character call id is answered normally.
+    let long_id = format!("call_{}", "x".repeat(65));
+    let id64 = format!("call_{}", "b".repeat(59));
+    for (prompt, stateless, cid, name) in [("longid_stateful", false, long_id.as_str(), "write"), ("longid_stateless", true, long_id.as_str(), "write"), ("dotname_stateless", true, "call_1", "functions.read"), ("id64_stateful", false, id64.as_str(), "write")] {
+        v.push(LoopCase {
+            stateless,
+            tool_choice: json!("auto"),
+            choice_spec: Some(None),
+            followup: None,
+            prompt: prompt.into(),
+            thread: false,
+            rounds: vec![RoundSpec { mode: 0, events: vec![json!({"type":"response.created","response":{"id":"resp_1"}}), call(0, "fc_1", cid, name, &w("t1"))], done: true, expected: Some(vec![ExpCall { oi: 0, call_id: cid.into(), name: name.into(), args: w("t1") }]), render: 1 }, end.clone()],
+        });
+    }
     let many: Vec<Value> = std::iter::once(json!({"type":"response.created","response":{"id":"resp_1"}})).chain((0..20).map(|j| call(j, &format!("fc_{j}"), &format!("call_{j}"), "write", &w(&format!("t{j}"))))).collect();
     let many2: Vec<Value> = std::iter::once(json!({"type":"response.created","response":{"id":"resp_2"}})).chain((20..40).map(|j| call(j, &format!("fc_{j}"), &format!("call_{j}"), "write", &w(&format!("t{j}"))))).collect();
     v.push(LoopCase {
@@ -1252,6 +1345,11 @@ fn main() {
     let a = parse_args();
     let mut res = RunResult::new("C16", &a);
     res.rule = "cases = (a) provider event lists for the collector from a clean grammar (unique ids, per-item order added/deltas/done, 5 argument deliveries) and a dirty one (missing/empty/shared/non-string ids, non-u64 output_index, any order, repeated events); (b) tool_choice values of every shape incl. malformed ones with probe names; (c) whole runs: config (history mode, tool_choice, follow-up message) x scripted provider rounds (clean/dirty events, [DONE] or not, HTTP error, dropped connection, random HTTP chunking, runs into the 32-call bound) with marker tools; non-trivial = at least one provider event; distinct by hash of the canonical case".into();
+    let st = schema::self_test();
+    if !st.is_empty() || !schemas().has("CreateResponseBody.json") || !schemas().has("ItemParam.json") {
+        eprintln!("c16: the schema judge failed its self-test: {st:?}");
+        std::process::exit(2);
+    }
     let home = Scratch::new("c16-home");
     std::env::set_var("HOME", home.path());
     std::env::set_var("NO_PROXY", "127.0.0.1,localhost");
@@ -1487,6 +1585,22 @@ fn main() {
         if c.thread {
             res.bump("loop-thread-run");
         }
+        for (k, (mine, real)) in e.valids.iter().zip(&e.real_valids).enumerate() {
+            res.bump(match (mine, real) {
+                (true, true) => "body-valid-for-schema-and-implementation",
+                (false, false) => "body-invalid-for-schema-and-implementation",
+                (false, true) => "body-violates-schema-but-implementation-accepts",
+                (true, false) => "body-satisfies-schema-but-implementation-refuses",
+            });
+            if mine != real && res.notes.len() < 8 {
+                res.notes.push(format!("case {case_id} body {k}: schema judge says valid={mine}, rip_openresponses::validate_create_response_body says valid={real}"));
+            }
+        }
+        if e.rejected.is_some() {
+            // what made the refused payload invalid (first error of the schema judge, without the instance)
+            let why = e.refused_why.first().map(|w| refusal_kind(w)).unwrap_or_else(|| "nothing (valid for the schema)".into());
+            res.bump(&format!("refused-because={why}"));
+        }
         res.bump(&format!("loop-mode={}", if c.stateless { "stateless" } else { "stateful" }));
         res.bump(&format!("loop-requests={}", match o.bodies.len() { 0 => "0", 1 => "1", 2 => "2", 3..=4 => "3-4", _ => "5+" }));
         res.bump_by("loop-tool-calls", e.done.iter().map(|d| d.len() as u64).sum());
@@ -1526,6 +1640,9 @@ fn main() {
     });
     for (k, n) in &per_class {
         res.notes.push(format!("oracle class {k}: {n} violations"));
+    }
+    for u in schemas().unknown.lock().unwrap().iter() {
+        res.notes.push(format!("schema judge: construct not understood (counted as satisfied): {u}"));
     }
     res.write(&a.out);
     println!("c16: {} cases, {} distinct non-trivial, {} oracle violations, {} panics", res.evaluations, res.distinct_nontrivial, res.oracle_violations.len(), res.impl_panics);
